@@ -284,11 +284,11 @@ Lemma authenticate_wp w n now s pol st D (Q : dirty -> store -> ares -> Prop) :
   wp D (authenticate w n now s pol) st Q.
 Proof.
   intros (Hpar & Hciba & Hcode & Hcb) HD HQ HQd.
-  unfold authenticate. destruct pol as [sub granted gres| | |e0].
+  unfold authenticate. destruct pol as [sub granted gres gdet| | |e0].
   - (* success *)
     apply (wp_touch_a D _ (a_id s)); [exact HD|reflexivity|].
     apply wp_bind, wp_get_client.
-    change (a_client (s <| a_subject := sub |> <| a_granted := granted |> <| a_granted_res := gres |>)) with (a_client s).
+    change (a_client (s <| a_subject := sub |> <| a_granted := granted |> <| a_granted_res := gres |> <| a_granted_details := gdet |>)) with (a_client s).
     destruct (client_of w st (a_client s)) as [c|] eqn:EC.
     2:{ cbn. apply HQd. reflexivity. }
     destruct (negb (rt_contains _ "code")) eqn:ERT.
@@ -475,7 +475,7 @@ Proof.
 Qed.
 
 (* ---- the interpreters do differ on programs that do not write through ---- *)
-Definition c18_g0 : gsession := mkGSession 40 33 0 100%Z 100%Z 0 GAuthorizationCode "alice" 1 "openid email" "openid email" 0 0 [] [].
+Definition c18_g0 : gsession := mkGSession 40 33 0 100%Z 100%Z 0 GAuthorizationCode "alice" 1 "openid email" "openid email" 0 0 [] [] [] [].
 Definition c18_bad : prog unit := Touch (OG (c18_g0 <| g_active := "openid" |>)) (Ret tt).
 Lemma alias_differs_without_write_through :
   fst (run_alias c18_bad (mkStore [] [] [c18_g0])) <> fst (run_seq c18_bad (mkStore [] [] [c18_g0])).
